@@ -101,4 +101,14 @@ PROPS = {
         "by the tape; checked: termination on the fake clock, no panic, every error is a *connect.Error with non-zero code, HTTP-status mapping for "
         "401/403/404/429/502/503/504, case-insensitive metadata lookup; distinct = distinct scheduler-log hash among runs with >= 2 candidates",
         16000, 2000000),
+    "C07": e2e(
+        "each run = one crafted HTTP request served by Handler.ServeHTTP (4 handler kinds x handler configurations: compression sets, read limit) "
+        "from a byzantine client: a conformant request from the reference encoder left valid, mutated 1-3 times (bit flips, truncation, appended "
+        "bytes, deleted headers, flag bits, encodings, content types, lying lengths, abnormal end of body), replaced by a grammar-aware adversarial "
+        "request with a documented outcome (unknown compression, malformed timeout, undecodable payload, corrupt compressed payload, oversize "
+        "message, framing cut inside an envelope, wrong method, wrong content type, bidi over HTTP/1.1), or random; body delivery segmented by the "
+        "tape; checked: ServeHTTP returns (fake-clock hang detection), no panic escapes, response strictly decodable by the reference codec for the "
+        "protocol the Content-Type selects (or bare 405/415/505), user code entered at most once and only with a decodable prefix of the request, "
+        "documented codes; distinct = distinct scheduler-log hash among runs with >= 2 candidates",
+        16000, 2000000),
 }
